@@ -76,3 +76,28 @@ theorem ofByteModel_byte (i : Inst) (hc : i.Canonical) : ofByteModel i.byte = i 
 
 end Inst
 end DaliVerif
+
+namespace DaliVerif
+open Frame Spec
+namespace Inst
+
+/-- writing an instance byte, in arithmetic form -/
+theorem addToFrame_ok (i : Inst) (hb : i.byte < 256) (d : Nat) (hd : d < 2 ^ 24) :
+    i.addToFrame ⟨24, d⟩ = .ok ⟨24, setSliceA d 15 8 i.byte⟩ := by
+  have hb' : i.byte < 2 ^ (15 + 1 - 8) := by simpa using hb
+  have hvc := (value_checks (i.byte : Int) (15 + 1 - 8)).mpr
+    ⟨Int.natCast_nonneg _, by exact_mod_cast hb'⟩
+  have hrs : (⟨24, d⟩ : Frame).readSlice (.int 15) (.int 8) .none = .ok (15, 8) := by
+    simp only [Frame.readSlice, PyVal.asInt?]; rfl
+  simp only [Inst.addToFrame, bne_self_eq_false, Bool.false_eq_true, if_false, Frame.setItem,
+    hrs, PyVal.asInt?, bind, Except.bind]
+  have h1 : ¬ (bitLength (i.byte : Int) > 15 + 1 - 8) := hvc.1
+  have h2 : ¬ ((i.byte : Int) < 0) := hvc.2
+  simp only [h1, h2, if_false, pure, Except.pure, Int.toNat_natCast]
+  rw [setSliceRaw_eqA 24 d 15 8 _ (by omega) (by omega) hd hb']
+
+theorem byte_ofByteModel : ∀ B : Fin 256, (ofByteModel B.val).byte = B.val := by
+  decide +kernel
+
+end Inst
+end DaliVerif
